@@ -452,7 +452,7 @@ NO_SHRINK = True
 
 
 def shards(tier, seed):
-    n = 400 if tier == "thorough" else 50
+    n = 1500 if tier == "thorough" else 150
     return [{"seed": seed, "lo": i * n, "hi": (i + 1) * n} for i in range(16)]
 
 
